@@ -31,6 +31,15 @@ def _role_prog(rng, role, n):
 
 
 def gen(rng, tier, spec):
+    if rng.below(50) == 0:
+        # the known finding (known_findings.json): a blocked waitActivation notified by activate(), whose
+        # activation a reset() revokes before the woken waiter re-tests the flag
+        progs = [[[WAITACT]], [[ACTIVATE], [RESET]] + _role_prog(rng, 'driver', rng.range(0, 1))]
+        if rng.chance(1, 2):
+            progs.append(_role_prog(rng, 'waiter', 1))
+        sched = [(0, 0)] * 5 + [(1, 0)] * rng.range(21, 26) + [(0, 0)] * rng.range(0, 4)
+        sched += R.sched_random(rng, len(progs), rng.range(0, 10), ((14, 0), (2, 1), (2, 2)))
+        return {'cfg': [0], 'progs': progs, 'sched': sched}
     nt = rng.weighted([(1, 1), (5, 2), (6, 3), (3, 4)])
     shape = rng.below(10)
     progs = []
@@ -105,8 +114,6 @@ def _roles(evs):
                 r = 'T'
             elif op in (WAIT, WAITFOR):
                 r = 'A' if n == 0 else 'T'
-            elif op == RESET:
-                r = 'T' if m == 2 else 'A'
         elif k == K['STORE']:
             if op == ACTIVATE:
                 r = 'A' if v == 1 else 'T'
@@ -120,6 +127,17 @@ def _roles(evs):
     role = {}
     for o, d in votes.items():
         role[o] = 'A' if d['A'] >= d['T'] else 'T'
+    # the class has exactly two atomics: an object seen only in reset()'s loads is the other one
+    atoms = []
+    for i, t, k, o, v, m, op, ins in evs:
+        if k in (K['LOAD'], K['STORE']) and o not in atoms:
+            atoms.append(o)
+    if len(atoms) == 2:
+        a, b = atoms
+        if a in role and b not in role:
+            role[b] = 'T' if role[a] == 'A' else 'A'
+        elif b in role and a not in role:
+            role[a] = 'T' if role[b] == 'A' else 'A'
     return role
 
 
@@ -242,9 +260,12 @@ def mon_lost_wakeup(case, lines):
     if vd != 1:
         return None
     vw = _View(case, lines)
-    last = {}
+    last, invoke_line, opof = {}, {}, {}
     for e in vw.evs:
         last[e[1]] = e
+        if e[2] == K['INVOKE']:
+            invoke_line[e[7]] = e[0]
+            opof[e[7]] = e[6]
     end = len(lines)
     for t, (i, _, k, o, v, m, op, ins) in sorted(last.items()):
         if k != K['CV_SLEEP']:
@@ -259,8 +280,57 @@ def mon_lost_wakeup(case, lines):
         if later:
             return ('deadlock: thread %d sleeps in %s since line %d and was never woken by the %s=true store at line %d'
                     % (t, OPNAME[op], i, name, later[0][0]))
+        if flag == 'T':
+            # a reset() that started after the waiter went to sleep and deactivated the variable must have
+            # forced (or seen) the trigger, which wakes the waiter
+            for j, v2, t2, ins2 in vw.stores['A']:
+                if v2 == 0 and j > i and invoke_line.get(ins2, -1) > i and opof.get(ins2) == RESET:
+                    return ('deadlock: thread %d sleeps in %s since line %d although the reset() invoked at line %d '
+                            'deactivated the variable at line %d: reset did not release the waiter'
+                            % (t, OPNAME[op], i, invoke_line[ins2], j))
+    return None
+
+
+def mon_activate_lost_to_reset(case, lines):
+    """KNOWN FINDING (known_findings.json, tv_no_lost_wakeup_activate_refuted): a thread asleep on cv_active was
+    notified by a successful activate(), a reset() stored activated=false before the woken thread re-tested the
+    flag, the thread went back to sleep and ends the run blocked although the variable was never re-activated
+    while it was blocked"""
+    if _verdict(lines) != 1:
+        return None
+    vw = _View(case, lines)
+    last, mine = {}, {}
+    for e in vw.evs:
+        last[e[1]] = e
+        mine.setdefault(e[1], []).append(e)
+    end = len(lines)
+    for t, (i, _, k, o, v, m, op, ins) in sorted(last.items()):
+        if k != K['CV_SLEEP'] or op not in (WAITACT, WAITFORACT):
+            continue
+        if vw.value_before('A', end) == 1 or any(s[0] > i and s[1] == 1 for s in vw.stores['A']):
+            continue          # a genuine lost wake-up: left to the generic monitor
+        evs = [e for e in mine[t] if e[7] == ins]
+        # the sleep / wake / re-test cycles of this call
+        for n, e in enumerate(evs):
+            if e[2] != K['CV_WAKE'] or e[4] != 0:
+                continue
+            sl = [x for x in evs[:n] if x[2] == K['CV_SLEEP']]
+            rt = [x for x in evs[n + 1:] if x[2] == K['LOAD']]
+            if not sl or not rt or rt[0][4] != 0:
+                continue
+            s_line, w_line, r_line = sl[-1][0], e[0], rt[0][0]
+            acts = [a for a in vw.stores['A'] if a[1] == 1 and s_line < a[0] < w_line]
+            for a in acts:
+                notified = any(x[2] == K['NOTIFY_ALL'] and x[1] == a[2] and a[0] < x[0] < w_line for x in vw.evs)
+                revoked = [d for d in vw.stores['A'] if d[1] == 0 and a[0] < d[0] < r_line]
+                if notified and revoked:
+                    return ('waitActivation missed an activation that reset() revoked before the re-test: thread %d slept '
+                            'at line %d, activate() stored activated=true at line %d and notified, reset() stored '
+                            'activated=false at line %d, the waiter re-tested at line %d and sleeps since line %d'
+                            % (t, s_line, a[0], revoked[0][0], r_line, i))
     return None
 
 
 MONITORS = {'wait_early': mon_wait_early, 'timed_false': mon_timed_false, 'activation_early': mon_activation_early,
-            'trigger_reset': mon_trigger_reset, 'lost_wakeup': mon_lost_wakeup}
+            'trigger_reset': mon_trigger_reset, 'lost_wakeup': mon_lost_wakeup,
+            'activate_lost_to_reset': mon_activate_lost_to_reset}
